@@ -1,0 +1,33 @@
+//go:build verif
+
+// Contracts for package api (dashboard API routing), read by the
+// verification-condition generator in /verif (govc).  Comment-only.
+
+package api
+
+//@ props C20 C16
+//@ func EnsureAllowed
+//@   nopanic
+//@   pure
+//@   ensures [C20] !method.RequiresAuth ==> statusCode == 200 && err == nil
+//@   ensures [C20] method.RequiresAuth && ctx.Session == nil ==> statusCode == 401 && err == ErrEndpointUnauthorized
+//@   ensures [C20] method.RequiresAuth && ctx.Session != nil ==> statusCode == 200 && err == nil
+
+// Every handler that RegisterHandlers installs is run (by the verifier) on an
+// arbitrary request right where it is registered: if the method requires
+// authentication and the request does not carry the cookie of a live session,
+// the endpoint function is not called and the status written is 401.
+//@ props C20
+//@ func API.RegisterHandlers
+//@   nopanic
+//@   requires specStoreWF()
+//@   ghost handler-ensures method.RequiresAuth && !(cookie_has(r, "reservoir.sid") && old(specLiveId(cookie_val(r, "reservoir.sid"), now))) ==> calls(method.Func) == old(calls(method.Func)) && httpstatus(w) == 401 && httpwrites(w) == old(httpwrites(w)) + 1
+//@   ghost handler-ensures !method.RequiresAuth ==> calls(method.Func) == old(calls(method.Func)) + 1
+//@   loop 1 invariant specStoreWF()
+//@   loop 2 invariant specStoreWF()
+
+// The route table: every endpoint listed in api.New requires authentication on
+// every method, except the login endpoint.  govc enumerates the composite
+// literal in New and generates the obligation for each element type, so an
+// endpoint added later is covered without a new contract.
+//@ endpoint registry New except "/auth/login"
